@@ -410,8 +410,12 @@ func Supervise(p *Prop, o Options) int {
 		fmt.Printf("   sig=%s (x%d)\n   %s\n", v.Sig, v.Count, Trunc(v.Msg, 600))
 		violLines = append(violLines, map[string]any{"sig": v.Sig, "msg": Trunc(v.Msg, 300), "count": v.Count, "replay": path})
 	}
-	for _, w := range inconclusive {
-		fmt.Printf("INCONCLUSIVE property=%s %s\n", p.ID, w)
+	for i, w := range inconclusive {
+		if i >= 6 {
+			fmt.Printf("INCONCLUSIVE property=%s … %d further reasons (see evidence file)\n", p.ID, len(inconclusive)-6)
+			break
+		}
+		fmt.Printf("INCONCLUSIVE property=%s %s\n", p.ID, Trunc(w, 1500))
 	}
 
 	cov := map[string]any{
